@@ -184,6 +184,17 @@ def c01(run, replay=None):
                           desc=dict(truthiness="assert", literal=L)))
         cases.append(dict(files={"main.rh": dict(tasks=pre + [task(('debug', lit("<<it>>")), loop=[lit('x'), lit('y')], when=('var', ['v']))])},
                           desc=dict(truthiness="when in loop", literal=L)))
+    # loops given as ONE template: a variable holding a list, a literal list expression, a range, a filter chain
+    for li2, (pre_lit, raw, items) in enumerate([
+            (('list', 2), '"{{ lst }}"', ['e0', 'e1']), (('list', 0), '"{{ lst }}"', []), (None, '"{{ [\'p\', \'q\', \'r\'] }}"', ['p', 'q', 'r']),
+            (None, '"{{ range(3) | list }}"', ['0', '1', '2']), (None, '"{{ [a, b] }}"', ['va', 'vb']), (('list', 2), '"{{ lst | reverse | list }}"', ['e1', 'e0'])]):
+        pre = [INIT] + ([task(('setlit', 'lst', pre_lit))] if pre_lit else [])
+        lt = task(('debug', lit("<<it.") + [('v', ['item'])] + lit(">>")), loop=[lit(x) for x in items])
+        lt["loop_raw"] = raw
+        ft = task(('command', 'klp%d' % li2, '', 0), loop=[lit(x) for x in items], when=('ne', ('var', ['item']), ('str', items[0] if items else 'zz')))
+        ft["loop_raw"] = raw
+        mid = [lt] if "range" in raw else [lt, ft]      # (range yields integers: a comparison with a string would differ in type)
+        cases.append(dict(files={"main.rh": dict(tasks=pre + mid + [task(('debug', lit(S(9))))])}, desc=dict(loop_as_template=raw)))
     # conditions written as YAML numbers / lists of mixed literals (K37: `when: 0` used to be dropped)
     for wi, (raw, val) in enumerate([("0", False), ("1", True), ("0.0", False), ("2.5", True), ("[1, \"false\"]", False), ("[1, true, \"true\"]", True), ("[0]", False), ("-1", True)]):
         t = task(('command', 'kr%d' % wi, '', 0), when=('bool', val))
@@ -434,6 +445,8 @@ def c17(run, replay=None):
             if d < depth:
                 inc = task(('include', names[d + 1]))
                 inc["relative"] = relative
+                if rng.random() < 0.35:
+                    inc["via_dir"] = os.path.relpath(names[d + 1], os.path.dirname(names[d]) or ".")
                 r = rng.random()
                 if r < 0.25:
                     inc["loop"] = [lit('x'), lit('y')]
